@@ -283,10 +283,107 @@ def run_positions():
     return out
 
 
+MODULE_HEADER = """[$default byte_order: "LittleEndian"]
+enum EnumA:
+  ONE = 1
+enum EnumB:
+  TWO = 2
+struct Tee(p0: UInt:8):
+  0 [+1]  UInt  z
+struct TeeE(p0: EnumA):
+  0 [+1]  UInt  z
+"""
+# expressions of each type, as a leaf and as a tree whose subexpressions have *other* types
+FIELD_EXPRS = {
+    "integer": ["ui", "(fl ? 2 : 1)", "(ea == EnumA.ONE ? ui : 1)"],
+    "boolean": ["fl", "ui == 1", "(ui + 1) < 3"],
+    "enumA": ["ea", "(fl ? ea : EnumA.ONE)", "(ui == 1 ? EnumA.ONE : ea)"],
+}
+CONST_EXPRS = {
+    "integer": ["3", "1 + 2", "(true ? 2 : 3)", "(EnumA.ONE == EnumA.ONE ? 2 : 3)"],
+    "boolean": ["true", "1 == 1"],
+    "enumA": ["EnumA.ONE"],
+}
+REQUIRES_EXPRS = {
+    "integer": ["this", "this + 1"],
+    "boolean": ["this == 1", "(this + 1) < 3", "this > 0 && true"],
+}
+MODULE_POSITIONS = {
+    # name: (template with %s, wanted type, expression table)
+    "field start": ("  %s [+1]  UInt  zz\n", "integer", FIELD_EXPRS),
+    "field size": ("  8 [+%s]  UInt:8[]  zz\n", "integer", FIELD_EXPRS),
+    "array length": ("  8 [+2]  UInt:8[%s]  zz\n", "integer", FIELD_EXPRS),
+    "existence condition": ("  if %s:\n    8 [+1]  UInt  zz\n", "boolean", FIELD_EXPRS),
+    "requires": ("  8 [+1]  UInt  zz\n    [requires: %s]\n", "boolean", REQUIRES_EXPRS),
+    "integer parameter": ("  8 [+1]  Tee(%s)  zz\n", "integer", FIELD_EXPRS),
+    "enum parameter": ("  8 [+1]  TeeE(%s)  zz\n", "enumA", FIELD_EXPRS),
+    "virtual field condition": ("  if %s:\n    let zz = 1\n", "boolean", FIELD_EXPRS),
+}
+
+
+def module_text(position, expr):
+    if position == "enum value":
+        return MODULE_HEADER + "enum Probe:\n  VALUE = %s\n" % expr
+    tmpl = MODULE_POSITIONS[position][0]
+    body = ("struct Main:\n  0 [+1]  UInt  ui\n  1 [+1]  bits:\n    0 [+1]  Flag  fl\n  2 [+1]  EnumA  ea\n")
+    return MODULE_HEADER + body + tmpl % expr
+
+
+def run_module_positions():
+    """Positions as the user writes them, through the whole front end
+    (check_types' traversal decides *which* nodes are checked): each typed
+    position x each expression type x leaf/nested expression shapes."""
+    out = {"op": "module positions", "paths": 0, "obligations": 0, "discharged": 0, "candidates": [], "unknown": 0}
+    from compiler.front_end import emboss_front_end
+    real = emboss_front_end._find_in_dirs_and_read([common.REPO])
+    combos = []
+    for pos, (tmpl, want, table) in MODULE_POSITIONS.items():
+        for ty, exprs in table.items():
+            for e in exprs:
+                combos.append((pos, want, ty, e))
+    for ty, exprs in CONST_EXPRS.items():
+        for e in exprs:
+            combos.append(("enum value", "integer", ty, e))
+    holder = {}
+
+    def body(c):
+        k = c.choose(len(combos), "combo")
+        holder["k"] = k
+        pos, want, ty, e = combos[k]
+        text = module_text(pos, e)
+
+        def rd(name):
+            return (text, None) if name == "probe.emb" else real(name)
+
+        ir, _, errors = glue.parse_emboss_file("probe.emb", rd)
+        return bool(errors), errors
+
+    def on_path(pr):
+        out["paths"] += 1
+        out["obligations"] += 1
+        pos, want, ty, e = combos[holder["k"]]
+        desc = {"position": pos, "type": ty, "expression": e}
+        if pr.kind == "raise":
+            out["candidates"].append(dict(desc, what="front end crashed with %s: %s" % (type(pr.exc).__name__, str(pr.exc)[:100])))
+            return
+        rejected, errors = pr.value
+        if rejected == (ty == want):
+            msg = errors[0][0].message if errors else ""
+            out["candidates"].append(dict(desc, rejected=rejected, what="%s although the position demands %s and the expression is %s%s" % (
+                "rejected" if rejected else "accepted", want, ty, (": " + msg) if msg else "")))
+        else:
+            out["discharged"] += 1
+
+    pysym.explore(body, on_path, max_paths=1000)
+    return out
+
+
 def _job(j):
     try:
         if j == "positions":
             return run_positions()
+        if j == "module positions":
+            return run_module_positions()
         return run_operator(j)
     except Exception as e:  # pylint: disable=broad-except
         return {"error": "".join(traceback.format_exception(type(e), e, e.__traceback__))[-1200:], "op": str(j)}
@@ -328,6 +425,8 @@ def emb_for(c):
         passed = ", ".join(vals[p] for p in c["passed"])
         return HEADER + t + "struct Main:\n  0 [+1]  Tee%s  t\n" % ("(%s)" % passed if passed else "")
     pos = c.get("position")
+    if "expression" in c:
+        return module_text(pos, c["expression"])
     leaf = LEAF_TEXT.get(c.get("type"), "ui")
     if pos == "field start":
         return HEADER + body + "  %s [+1]  UInt  z\n" % leaf
@@ -368,12 +467,14 @@ def classify(c):
         key["same_enum_operands"] = len(ts) == 2 and ts[0] == ts[1] and ts[0].startswith("enum")
     else:
         key["position"] = c.get("position")
+        if "expression" in c:
+            key["type"] = c.get("type")
     return key
 
 
 def main(tier):
     rep = common.Report("C13", tier, "proof")
-    jobs = list(range(len(OPERATORS))) + ["positions"]
+    jobs = list(range(len(OPERATORS))) + ["positions", "module positions"]
     with multiprocessing.Pool(min(len(jobs), common.ncpu())) as pool:
         results = pool.map(_job, jobs)
     tot = {"paths": 0, "obligations": 0, "discharged": 0}
@@ -406,7 +507,7 @@ def main(tier):
             # (another pass catches it): reported as unit-level only if the unit is the only guard
             rep.inconclusive_item("unit-level difference not visible through the whole front end: %s (%s)" % (c, observed[:60]))
     for name, v in per_op.items():
-        if name != "positions" and (not v["accepted"] or not v["rejected"]):
+        if name not in ("positions", "module positions") and (not v["accepted"] or not v["rejected"]):
             rep.harness_error("operator %s: accepted=%s rejected=%s (vacuous)" % (name, v["accepted"], v["rejected"]))
     rep.sample({"operator": "==", "arity": 2, "operand kinds": "each in {integer, boolean, enumA, enumB, opaque}",
                 "oracle": "accepted iff both integer, both boolean, or both the same enum; result boolean"})
